@@ -43,6 +43,7 @@ def _public_classes():
         if isinstance(n, ast.ImportFrom) and n.module == 'lentil.plane': return [a.name for a in n.names]
     return ['Plane', 'Pupil', 'Image', 'Tilt', 'DispersiveTilt', 'Grism', 'LensletArray', 'Rotate', 'Flip']
 CLASSES = _public_classes()
+TILT_FAMILY = [c for c in ('Tilt', 'DispersiveTilt', 'Grism') if c in CLASSES]      # constructors that forward a caller-supplied ptype
 PTYPES = ['none', 'pupil', 'image', 'tilt', 'transform']
 WTYPES = ['none', 'pupil', 'image']
 # how the start wavefront is built: one array field / no field at all (Wavefront.empty) / no field left after two planes
@@ -73,9 +74,15 @@ def generate(rng, tier):
         # how the operands reached the call: as built, through pickle, through copy.deepcopy / Plane.copy, or (explicit ptypes)
         # with a PType constructed directly instead of by the lentil.ptype() factory
         for o in ops:
+            if o['k'] == 'pt' and rng.integers(0, 2): o['ctor'] = TILT_FAMILY[int(rng.integers(0, len(TILT_FAMILY)))]
             if o['k'] != 'prop': o['via'] = ['plain', 'plain', 'pickle', 'deepcopy', 'direct'][int(rng.integers(0, 5))]
             o['wvia'] = ['plain', 'plain', 'plain', 'pickle', 'deepcopy'][int(rng.integers(0, 5))]
         out.append({'start': WTYPES[i % 3], 'mode': MODES[(i // 3) % 4 % 3], 'ops': ops})
+    # a caller-supplied plane type through each constructor of the Tilt family (TiltInterface pops `ptype` from kwargs)
+    for s in WTYPES:
+        for p in PTYPES:
+            for ctor in TILT_FAMILY:
+                out.append({'start': s, 'mode': 'field', 'ops': [{'k': 'pt', 'pt': p, 'ctor': ctor, 'arr': False, 'par': 1, 'via': 'plain', 'wvia': 'plain'}, {'k': 'prop', 'fft': False, 'par': 0, 'wvia': 'plain'}]})
     # every class / ptype once through each route, from each start type
     for s in WTYPES:
         for via in ('pickle', 'deepcopy', 'direct'):
@@ -84,7 +91,7 @@ def generate(rng, tier):
     return out
 
 def _opname(o):
-    n = o['cls'] if o['k'] == 'cls' else ('pt:' + o['pt'] if o['k'] == 'pt' else 'prop')
+    n = o['cls'] if o['k'] == 'cls' else ((o.get('ctor') or 'pt') + ':' + o['pt'] if o['k'] == 'pt' else 'prop')
     v = (o.get('via', 'plain')[0] if o.get('via', 'plain') != 'plain' else '') + (o.get('wvia', 'plain')[0].upper() if o.get('wvia', 'plain') != 'plain' else '')
     return n + ('~' + v if v else '')
 
@@ -101,6 +108,10 @@ def _mkplane(o, w):
     import lentil
     amp = np.ones(tuple(w.shape)) if (o['arr'] and len(tuple(w.shape)) == 2 and 0 < int(np.prod(w.shape)) <= 4096) else 1
     par = o['par']
+    if o['k'] == 'pt' and o.get('ctor'):
+        pt = _direct_ptype(o['pt']) if o.get('via') == 'direct' else getattr(lentil, o['pt'])
+        if o['ctor'] == 'Tilt': return lentil.Tilt(x=1e-7 * par, y=-2e-7 * par, ptype=pt)
+        return getattr(lentil, o['ctor'])(trace=[1.0, 0.0], dispersion=[1.0, 5e-7], ptype=pt)
     if o['k'] == 'pt': return lentil.Plane(amplitude=amp, ptype=_direct_ptype(o['pt']) if o.get('via') == 'direct' else o['pt'])
     c = o['cls']
     if c == 'Plane': return lentil.Plane(amplitude=amp, opd=1e-8 * par)
@@ -286,8 +297,10 @@ def oracle(case, io):
                 want = 'NotImplementedError'; what += ' carrying fitted tilt'
         else:
             p = o['pt'] if o['k'] == 'pt' else _doc_ptype(o['cls'])
+            if o['k'] == 'pt' and io['ptypes'][i] != p:
+                msgs.append(f"step {i}: lentil.{o.get('ctor') or 'Plane'}(ptype=lentil.{p}) has ptype '{io['ptypes'][i]}'")
             want = d['mul'][(cur, p)] or 'TypeError'
-            what = (f"lentil.{o['cls']}.multiply" if o['k'] == 'cls' else f"Plane(ptype='{p}').multiply") + f" (documented ptype '{p}') on a '{cur}' wavefront"
+            what = (f"lentil.{o['cls']}.multiply" if o['k'] == 'cls' else f"{o.get('ctor') or 'Plane'}(ptype='{p}').multiply") + f" (documented ptype '{p}') on a '{cur}' wavefront"
             if o['k'] == 'cls' and io['ptypes'][i] != p:
                 msgs.append(f"step {i}: {what} gave {r}, documented {want}; lentil.{o['cls']}() has ptype '{io['ptypes'][i]}', documented '{p}'")
                 if r in WTYPES: cur = r
